@@ -160,6 +160,10 @@ pub open spec fn t_wf(v: TView) -> bool {
 // ---------------------------------------------------------------------------------------
 // -x- : everything to the end, each 1-8 alphanumerics
 // ---------------------------------------------------------------------------------------
+/// -x- value: the lower-cased tags in the library's documented sorted order (a sorted multiset)
+pub open spec fn x_expected(t: Seq<Seq<u8>>, v: Seq<Seq<u8>>) -> bool {
+    weakly_sorted(v) && v.to_multiset() == lowered_run(t, 0, t.len() as int).to_multiset()
+}
 pub open spec fn x_ok(t: Seq<Seq<u8>>, a: int) -> bool {
     forall|i: int| a <= i < t.len() ==> is_private(#[trigger] t[i])
 }
@@ -358,4 +362,13 @@ pub proof fn lemma_kv_wf_insert(m: Map<tinystr::TinyAsciiStr<4>, Seq<Seq<u8>>>, 
         is_utype(#[trigger] nm[kk][i]) && lower(nm[kk][i]) == nm[kk][i] && nm[kk][i] != true_word() by {
         if kk == k { assert(nm[kk][i] == v[i]); } else { assert(m.contains_key(kk) && nm[kk] == m[kk]); }
     }
+}
+
+pub proof fn lemma_t_end_bounds(t: Seq<Seq<u8>>)
+    ensures 0 <= t_end(t) <= t.len() || t_err(t),
+{
+    if t_has_lang(t) && is_language(t[0]) {
+        lemma_var_run_bounds(t, var_pos(t));
+    }
+    if t_has_fields(t) { lemma_tf_end_bounds(t, t_f0(t)); }
 }
